@@ -68,6 +68,10 @@ func floor(s *slip.Scope, f slip.Object, args slip.List, depth int) slip.Values 
 		div = args[1]
 	}
 	num, div = slip.NormalizeNumber(num, div)
+	if fn, ok := num.(slip.Fixnum); ok && fn == math.MinInt64 && div == slip.Fixnum(-1) {
+		// The one fixnum quotient that is not a fixnum.
+		num, div = slip.NewBignum(math.MinInt64), slip.NewBignum(-1)
+	}
 
 	switch tn := num.(type) {
 	case slip.Fixnum:
